@@ -16,7 +16,16 @@ Definition check_vals (c : nat * list Z * list Z) : bool :=
 def run(ctx):
     cm.setup_impl_path()
     for b in cm.audit(cm.coq_sources() + [os.path.join(cm.ROOT, 'props', 'C12.v')]): ctx.broken.append('audit: ' + b)
-    cm.prove(ctx, 'C12.v')
+    sys.path.insert(0, os.path.join(cm.ROOT, 'qtrans'))
+    try:
+        import gen_c12
+        txt, _ = gen_c12.generate(cm.REPO)
+        open(os.path.join(ctx.build, 'Gen_C12.v'), 'w').write(txt)
+        ctx.obligations.append(('translate:qsvd.py(pass_eff_qsvd data flow, n_passes = 2..5)', True, ''))
+        cm.prove(ctx, 'C12.v', ['Gen_C12.v'])
+    except Exception as e:
+        ctx.obligations.append(('translate', False, repr(e)))
+        ctx.broken.append(f'qtrans cannot translate the data flow of pass_eff_qsvd any more: {e!r}')
     try:
         import numpy as np, quaternion, utils, importlib
         qsvd = importlib.import_module('decomp.qsvd')
